@@ -1,10 +1,11 @@
 (* C14 runner.  Input, one case per line:
-     mux <fxa> <fxv> <dfx> <op>...           Assemble bytes + demuxer result on them
-     rt <class> <fxa> <fxv> <dfx> <op>...    round trip in view form; S = the specification
-     demux <dfx> <hex>                       demuxer on given bytes
+     mux <op>...           Assemble bytes + demuxer result on them
+     rt <class> <op>...    round trip in view form; S = the specification
+     demux <hex>           demuxer on given bytes
    ops:  AF <hex> <o|n> dur ox oy blend dispose | DM i mode | DU i dur | IC blob | EX blob |
          XM blob | AC id blob | LC n | BG c | CS w h         (blob: "-" nil, "e" empty, hex)
-   fxa/fxv/dfx: 1 = the patched code (work/patches), 0 = the pinned code.            *)
+   The models run are those of the current (repaired) code: MuxModel.repaired and
+   DemuxModel.parse true; the pinned variants exist only inside _refuted theorems.    *)
 open Zutil
 open Riffio
 
@@ -34,7 +35,7 @@ let fmt_view (v : MuxView.view) : string =
     (String.concat ";" (Stdlib.List.map fr v.vw_frames)) (zs v.vw_cw) (zs v.vw_ch) (b2s v.vw_anim)
     (zs v.vw_loop) (zs v.vw_bg) (fmt_oblob v.vw_icc) (fmt_oblob v.vw_exif) (fmt_oblob v.vw_xmp)
 
-let fixes a v = { MuxModel.fx_alpha = (a = "1"); fx_validate = (v = "1") }
+let fixes = MuxModel.repaired
 
 (* the outputs of the calls, one char each: k = nil, e = error *)
 let outs ops =
@@ -47,23 +48,23 @@ let outs ops =
 
 let () = iter_lines (fun line ->
   match split_ws line with
-  | "mux" :: a :: v :: dfx :: rest ->
+  | "mux" :: rest ->
     let ops = parse_ops rest in
     let m = MuxModel.run ops in
-    (match MuxModel.assemble (fixes a v) m with
+    (match MuxModel.assemble fixes m with
      | Res.Ok bs ->
        Printf.printf "I %s ok %s | %s\n" (outs ops) (hex_of_bytes (Stdlib.List.map int_of_z bs))
-         (fmt_parse (DemuxModel.parse (dfx = "1") bs))
+         (fmt_parse (DemuxModel.parse true bs))
      | Res.Err _ -> Printf.printf "I %s err\n" (outs ops)
      | Res.Panic -> Printf.printf "I %s panic\n" (outs ops))
-  | "rt" :: _cls :: a :: v :: dfx :: rest ->
+  | "rt" :: _cls :: rest ->
     let ops = parse_ops rest in
     let m = MuxModel.run ops in
     let hyp = Stdlib.List.for_all MuxView.op_okb ops in
     let i, s =
-      match MuxModel.assemble (fixes a v) m with
+      match MuxModel.assemble fixes m with
       | Res.Ok bs ->
-        let i = match DemuxModel.parse (dfx = "1") bs with
+        let i = match DemuxModel.parse true bs with
           | Res.Ok d -> (match MuxView.view_of_demux d with Some vw -> "ok " ^ fmt_view vw | None -> "ok demux-nil-frame")
           | Res.Err _ -> "ok demux-err"
           | Res.Panic -> "ok demux-panic" in
@@ -72,8 +73,8 @@ let () = iter_lines (fun line ->
       | Res.Err _ -> "err", "err"
       | Res.Panic -> "panic", "no-panic" in
     if hyp then Printf.printf "I %s S %s\n" i s else Printf.printf "I %s\n" i
-  | ["demux"; fx; hex] ->
+  | ["demux"; hex] ->
     let bs = if hex = "-" then [] else zlist_of_hex hex in
-    Printf.printf "I %s\n" (fmt_parse (DemuxModel.parse (fx = "1") bs))
+    Printf.printf "I %s\n" (fmt_parse (DemuxModel.parse true bs))
   | [] -> ()
   | _ -> print_endline "ERR bad-line")
